@@ -29,7 +29,7 @@ func init() {
 		Aux:         raceAux("C19"),
 		Sub:         map[string]func([]string) int{"racepass-C19": racePassSub(c19Scenarios)},
 		Post: func(a *mc.Agg) []string {
-			return needDims(a, "bfs-state", "scenario:intern", "threads:2", "threads:3", "null-string")
+			return needDims(a, "bfs-state", "table-size-sweep", "scenario:intern", "threads:2", "threads:3", "null-string")
 		},
 	})
 }
@@ -315,6 +315,12 @@ func c19Work(c *mc.Ctx) {
 			runScenario(c, "C19", sc)
 		}
 	}
+	// (a0) the table-size dimension: every table size from 0 to N is visited on one instance
+	// (the BFS below only reaches sizes up to its depth); at every size a new string, the
+	// oldest, the newest and the empty string are decoded and compared with the plain twin.
+	if c.Owns(len(scs) + 1) {
+		c19SizeSweep(c)
+	}
 	// (a) BFS over histories, de-duplicated on the tables' contents. The search is
 	// sharded by the first operation of the history (each shard de-duplicates locally).
 	depth, alpha := 4, []int{0, 1, 2, 4}
@@ -333,7 +339,7 @@ func c19Work(c *mc.Ctx) {
 	states, transitions, maxDepth := 0, 0, 0
 	exhausted := true
 	for fi, first := range ops {
-		if !c.Owns(fi + len(scs) + 1) {
+		if !c.Owns(fi + len(scs) + 2) {
 			continue
 		}
 		seen := map[string]bool{}
@@ -392,4 +398,89 @@ func c19Work(c *mc.Ctx) {
 	if !exhausted {
 		c.Note("BFS frontier not exhausted before the deadline")
 	}
+}
+
+// c19SizeSweep grows one field's table one distinct string at a time.
+func c19SizeSweep(c *mc.Ctx) {
+	n := 3000
+	if c.Tier == "thorough" {
+		n = 20000
+	}
+	if !c.Begin(fmt.Sprintf(`{"set":"table-size-sweep","sizes":%d}`, n)) {
+		return
+	}
+	c.Dim("table-size-sweep")
+	c.Guard("sweep|", func() {
+		p := NewPlenc(ref.Cfg{})
+		mk := func(i int) string {
+			// distinct strings sharing long prefixes, of varying length
+			return fmt.Sprintf("%s-%d", strings.Repeat("p", i%37), i)
+		}
+		var returned, copies []string
+		decode := func(a, b string, valid bool) (gen.Intern, gen.NIntern, bool) {
+			data := mustMarshal(&gen.Plain{A: a, B: b, C: "c"})
+			var gi gen.Intern
+			var gp gen.Plain
+			buf := append([]byte(nil), data...)
+			e1 := p.Unmarshal(buf, &gi)
+			e2 := p.Unmarshal(data, &gp)
+			for i := range buf {
+				buf[i] = 0xEE
+			}
+			ndata := mustMarshal(&gen.NPlain{A: null.NewString(a, valid), B: b})
+			var ni gen.NIntern
+			var np gen.NPlain
+			nbuf := append([]byte(nil), ndata...)
+			e3 := p.Unmarshal(nbuf, &ni)
+			e4 := p.Unmarshal(ndata, &np)
+			for i := range nbuf {
+				nbuf[i] = 0xEE
+			}
+			c.Ops(4)
+			c.AddEvals(1)
+			c.Count("states", 1)
+			ok := e1 == nil && e2 == nil && e3 == nil && e4 == nil && gi.A == gp.A && gi.B == gp.B && gi.C == gp.C && ni.A == np.A && ni.B == np.B
+			if !ok {
+				c.Violation("sweep|interned-differs-from-plain", fmt.Sprintf("after %d distinct strings through the field: decoding A=%q B=%q gives interned {%q %q} / null {%v %q}, plain {%q %q} / null {%v %q}; errors %v %v %v %v",
+					len(returned)/2, a, b, gi.A, gi.B, ni.A, ni.B, gp.A, gp.B, np.A, np.B, e1, e2, e3, e4))
+			}
+			returned = append(returned, gi.A, gi.B)
+			copies = append(copies, strings.Clone(gi.A), strings.Clone(gi.B))
+			return gi, ni, ok
+		}
+		for i := 0; i < n; i++ {
+			if c.Expired() {
+				c.Note(fmt.Sprintf("table-size sweep stopped at size %d", i))
+				break
+			}
+			if i%256 == 0 {
+				c.Heartbeat()
+			}
+			c.NonTrivialKey(fmt.Sprintf("size%d", i))
+			if _, _, ok := decode(mk(i), mk(i/2), true); !ok {
+				return
+			}
+			if _, _, ok := decode(mk(0), "", i%2 == 0); !ok {
+				return
+			}
+			if i%64 == 63 || i == n-1 {
+				for k := range returned {
+					if returned[k] != copies[k] {
+						c.Violation("sweep|returned-string-changed-later", fmt.Sprintf("string %d returned earlier was %q and is now %q (table size %d)", k, copies[k], returned[k], i))
+						return
+					}
+				}
+			}
+		}
+		if tabs, err := internTables(p, reflect.TypeOf(gen.Intern{})); err == nil {
+			mx := 0
+			for _, t := range tabs {
+				if len(t) > mx {
+					mx = len(t)
+				}
+			}
+			c.Count("max_table_size", int64(mx))
+		}
+	})
+	c.Outcome("sweep-done")
 }
